@@ -7,9 +7,6 @@ AUTOSQL = 'table t\n"x"\n(\nstring chrom; "c"\nuint chromStart; "s"\nuint chromE
 def main():
     run = Run("C02")
     cfgs = ["MC_BigBed_t1.cfg", "MC_BigBed_t2.cfg", "MC_BigBed_q3.cfg"] if run.thorough else ["MC_BigBed_q1.cfg", "MC_BigBed_q2.cfg", "MC_BigBed_q3.cfg"]
-    beh = emit(run, "MC_BigBed", cfgs)
-    # deeper layouts by random walks: 5..8 items over two chromosomes, one or two per block, fan-out 2 => 3- and 4-level indexes
-    beh += emit_sim(run, "MC_BigBed", "MC_BigBed_deep.cfg", 3000 if run.thorough else 300)
     sizes = lambda b: [b["L"]] * b["NC"]
 
     def extra(b, k, rng):
@@ -20,10 +17,11 @@ def main():
         if k % 4 == 1:
             e["restmode"] = "cols"     # 0..20 extra tab-separated UTF-8 columns
         return e
-    cases = make_cases(beh, "bb", sizes, run, extra=extra)
     nt = lambda o: len(o["items"]) >= 2
     desc = lambda o: {k: o["obs"].get(k) for k in ("result", "err", "chroms", "read", "count", "autosql", "readerr")}
-    obs = judge(run, "C02", "Obs_BigBed", cases, nt, desc)
+    # exhaustive layouts, then deeper ones by random walks (5..8 items over two chromosomes, fan-out 2 => 3- and 4-level indexes)
+    obs = run_batches(run, "C02", "MC_BigBed", cfgs, "Obs_BigBed", nt, desc, lambda beh, k0: make_cases(beh, "bb", sizes, run, extra=extra, k0=k0),
+                      sims=[("MC_BigBed_deep.cfg", 3000 if run.thorough else 300)])
     run.cov["rule"] = ("every start-sorted entry layout within the TLC bounds x (ips, zoom list); free options paired; every third case with a supplied "
                        "autoSql, every fourth with 0..20 extra UTF-8 columns; non-trivial = at least 2 entries; distinct by (items, ips, zooms)")
     run.sample({"items": obs[len(obs) // 3]["items"], "opts": obs[len(obs) // 3]["opts"], "read": obs[len(obs) // 3]["obs"].get("read")})
